@@ -324,6 +324,7 @@ int main(int argc, char **argv)
     int i, cfg = 0, thorough = 0, L, randlen; const char *replay = NULL, *prop = NULL; double t0 = now(); size_t sz, n;
     unsigned char keys[16]; unsigned long arrays = 0; char samples[3][300]; int nsamples = 0;
     setvbuf(stdout, NULL, _IOFBF, 1 << 16);
+    shim_watchdog_start();
     shim_rand_fn = my_rand;
     for (i = 1; i < argc; i++) {
         if (!strcmp(argv[i], "--prop") && i + 1 < argc) prop = argv[++i];
